@@ -21,7 +21,10 @@ CLAIMS = {
              "memory effects with a byte-level semantics: memmove / copy_nonoverlapping / zero); allocation (any flavour), dealloc, reset "
              "and a failed initialiser's rewind write nothing; grow and shrink preserve the first min(old,new) bytes and change no byte "
              "outside the new block (copy_nonoverlapping is never applied to overlapping ranges); fill closures are called once per index "
-             "in order and a fallible fill stops right after the first error." + CORR +
+             "in order and a fallible fill stops right after the first error; and over every admissible history of the full operation "
+             "alphabet (incl. initialisers that allocate and fail, failed fills, Allocator calls, resets) a block that stays live and is "
+             "not itself reallocated keeps every byte (history_contents, by the live-block invariant of C01: all arena writes land "
+             "inside the block grow/shrink returns, disjoint from every other live block)." + CORR +
              " Canary oracle: every live block's bytes are re-verified after every operation on the real crate; closure call logs compared.",
         note=BASE_NOTE + " The caller's own writes into a fresh block are outside the model (they are disjoint from live blocks by C01)."),
     "C11": dict(
